@@ -158,7 +158,7 @@ pub fn inject(rng: &mut Rng, dev: &str, b: &mut [u8], img: &Image) -> Option<Str
         }
         "wrong_root_name" => {
             let e = &img.entries[0];
-            let name = *rng.pick(&["R", "Root entry", "ROOT ENTRY", "Racine", "\u{30eb}\u{30fc}\u{30c8}", "C:\\docs\\report.doc", "a/b", "Root!", "x:y", "name_of_exactly_31_utf16_units_"]);
+            let name = *rng.pick(&["R", "Root entry", "ROOT ENTRY", "root entry", "Racine", "\u{30eb}\u{30fc}\u{30c8}", "C:\\docs\\report.doc", "a/b", "Root!", "x:y", "name_of_exactly_31_utf16_units_"]);
             for i in 0..32 {
                 wr16(b, e.off + 2 * i, 0);
             }
@@ -277,6 +277,24 @@ fn deviation_bases(ctx: &Ctx) -> Vec<Base> {
             if let Ok(img) = refparse::parse(&bytes) {
                 let idx = crate::corrupt::index_fields(&img);
                 pool.push(Base { bytes, img, idx, origin: "synthesised with DIFAT sectors".into() });
+            }
+        }
+    }
+    // an over-provisioned FAT on a file whose sector count is an exact multiple of the FAT
+    // sector capacity: everything beyond the end of the file lies in the spare FAT sector
+    for k in 0..2u64 {
+        let mut rng = Rng::derive(ctx.seed, &[0x5FA7, ctx.shard, k]);
+        let mut layout = Layout::random(&mut rng);
+        layout.version = if k == 0 { 3 } else { 4 };
+        layout.spare_fat = 1;
+        layout.min_total_sectors = if k == 0 { 128 * rng.range(1, 3) as usize } else { 1024 };
+        let model = synth::random_model(&mut rng, 10, 5000);
+        let (bytes, f) = synth::synthesize(&model, &layout, &mut rng);
+        let per = if k == 0 { 128 } else { 1024 };
+        if f.total_sectors % per == 0 && self_check(&model, &bytes).is_ok() {
+            if let Ok(img) = refparse::parse(&bytes) {
+                let idx = crate::corrupt::index_fields(&img);
+                pool.push(Base { bytes, img, idx, origin: "synthesised with a spare FAT sector, sector count aligned".into() });
             }
         }
     }
